@@ -25,6 +25,10 @@ type tmpl struct {
 	// the rpc or action whose input or output it removes, as a path of child names).
 	clean bool
 	gone  []string
+	// for clean templates: paths (child names from the root of module m) that must exist
+	// afterwards, and the default values that leaves must have
+	present  [][]string
+	defaults map[string]string
 }
 
 const h = `namespace "urn:%s"; prefix %s;`
@@ -90,6 +94,9 @@ var templates = []tmpl{
 	{name: "not-supported-twice-in-one-deviation", files: []string{
 		`module m { ` + hdr("m") + ` container c { leaf x { type string; } leaf y { type string; } %PAD } }`,
 		`module d { ` + hdr("d") + ` import m { prefix m; } deviation /m:c/m:x { deviate not-supported; deviate not-supported; } }`}},
+	{name: "unprefixed-paths-written-in-a-submodule", clean: true, present: [][]string{{"top", "x"}, {"c", "y"}}, defaults: map[string]string{"sc/sl": "dx", "c/l": "dy"}, files: []string{
+		`module m { ` + hdr("m") + ` include s; container c { leaf l { type string; } %PAD } }`,
+		`submodule s { belongs-to m { prefix m; } container top { } container sc { leaf sl { type string; } } augment "/top" { leaf x { type string; } } augment /c { leaf y { type string; } } deviation /sc/sl { deviate add { default "dx"; } } deviation /c/l { deviate add { default "dy"; } } }`}},
 	{name: "not-supported-on-rpc-input-or-output", clean: true, gone: []string{"r"}, files: []string{
 		`module m { ` + hdr("m") + ` rpc r { input { leaf i { type string; } } output { leaf o { type string; } } } %PAD }`,
 		`module d { ` + hdr("d") + ` import m { prefix m; } deviation /m:r/m:%IO { deviate not-supported; } }`}},
@@ -160,7 +167,10 @@ func Run(j *job.Job, s *job.Sink) {
 		// gets revision 2019-01-01, the other modules import exactly that revision, and a
 		// clean m@2020-01-01 is loaded next to it (it holds the bare name m). Problems
 		// recorded in the tree of the older revision must be reported all the same.
-		twoRevs := r.Intn(3) == 0
+		// (not for templates with a submodule: which revision a submodule belongs to is
+		// settled by the bare name, the recorded finding c13-two-revisions-share-a-submodule
+		// lives there)
+		twoRevs := r.Intn(3) == 0 && !strings.Contains(strings.Join(t.files, " "), "submodule ")
 		if twoRevs {
 			for _, f := range files {
 				f["text"] = strings.Replace(f["text"], "module m { "+hdr("m"), "module m { "+hdr("m")+" revision 2019-01-01;", 1)
@@ -261,6 +271,34 @@ func Run(j *job.Job, s *job.Sink) {
 				if improper != "" {
 					s.Violation(c, j.CaseID(c), j.Property+".latefault", "clean-result-with-improper-tree", t.name+": "+improper, cs, map[string]any{"template": t.name})
 					return
+				}
+				if t.present != nil || t.defaults != nil {
+					mname := "m"
+					if twoRevs {
+						mname = "m@2019-01-01"
+					}
+					root := yang.ToEntry(ms.Modules[mname])
+					at := func(path []string) *yang.Entry {
+						e := root
+						for _, st := range path {
+							if e != nil {
+								e = e.Dir[st]
+							}
+						}
+						return e
+					}
+					for _, pth := range t.present {
+						if at(pth) == nil {
+							s.Violation(c, j.CaseID(c), j.Property+".latefault", "late-step-not-applied", fmt.Sprintf("%s: /%s is not in the tree of module m", t.name, strings.Join(pth, "/")), cs, map[string]any{"template": t.name})
+							return
+						}
+					}
+					for pth, d := range t.defaults {
+						if e := at(strings.Split(pth, "/")); e == nil || len(e.Default) != 1 || e.Default[0] != d {
+							s.Violation(c, j.CaseID(c), j.Property+".latefault", "late-step-not-applied", fmt.Sprintf("%s: /%s does not have the default %q", t.name, pth, d), cs, map[string]any{"template": t.name})
+							return
+						}
+					}
 				}
 				if t.gone == nil {
 					s.Count("clean_templates_held", 1)
